@@ -104,7 +104,8 @@ def walk_links(outdir, skip_fragment=lambda page, frag: False):
             if u.fragment and target.endswith(".html"):
                 tc = pages.get(target) or scan(target)
                 frag = urllib.parse.unquote(u.fragment)
-                if frag not in tc.ids and not skip_fragment(os.path.relpath(target, outdir), frag):
+                # (a browser looks for the fragment as written first, then for its percent-decoded form)
+                if frag not in tc.ids and u.fragment not in tc.ids and not skip_fragment(os.path.relpath(target, outdir), frag):
                     problems.append(f"{rel}: <{tag} {attr}={url!r}>: no element with id/name {frag!r} in {os.path.relpath(target, outdir)}")
     return problems, nlinks, len(pages)
 
